@@ -1642,3 +1642,86 @@ func c16r9(c *Ctx) {
 		ir.Fail("no call of SingleAddressStore.AddBroadcastedSet found in the wallet")
 	}
 }
+
+func init() {
+	register(&Rule{ID: "C01.R16", Prop: "C01", Floor: 3, Doc: "a block is never stored without its state: every Store.AddBlock is preceded or followed, within the same iteration, by Store.AddState on every path", Run: c01r16})
+	register(&Rule{ID: "C12.R10", Prop: "C12", Floor: 3, Doc: "side-chain blocks are stored with their states, so the next batch of a long fork finds its parent state (same check as C01.R16)", Run: c01r16})
+	register(&Rule{ID: "C12.R9", Prop: "C12", Floor: 1, Doc: "a rejected or finished inbound RPC gives its per-peer and per-subnet slots back, so a node never stops reading an honest peer's streams (same checks as C18.R1/R2)", Run: func(c *Ctx) { c18r1(c); c18r2(c) }})
+	add := func(prop, text string) { Explanations[prop] += " " + text }
+	add("C01", "(R16) in chain.Manager every call of Store.AddBlock lies, within its loop iteration (or the function), behind a Store.AddState on every path to it, or is followed by one on every path from it: AddBlocks is the only writer of the states of blocks kept on a side chain, and a fork that arrives in more than one batch needs the state of the last stored block as the parent state of the next.")
+	add("C12", "(R9) the slot pairing of C18.R1/R2: a per-peer slot that is not given back when an RPC is rejected makes the peer loop block on its own semaphore for good — the node then never reads that honest peer's requests or announcements again; (R10) the check of C01.R16: a fork longer than one 100-block request is stored batch by batch, and the second batch fails with 'missing parent state' (and the honest peer is banned) unless the first was stored with its states.")
+}
+
+func c01r16(c *Ctx) {
+	r := getChainRoles(c.P)
+	n := 0
+	for _, f := range r.methodsV {
+		g := f.Graph()
+		isState := func(nd *cfgx.Node) bool {
+			if nd.AST == nil {
+				return false
+			}
+			_, ok := f.NodeCallsTo(nd, r.storeAddState)
+			return ok
+		}
+		for _, call := range f.CallsTo(false, r.storeAddBlock) {
+			nd := g.NodeContaining(call.Pos())
+			if nd == nil || !g.Live(nd) {
+				continue
+			}
+			n++
+			c.VisitGraph(f)
+			ob := c.Ob(f, "block-stored-with-state", call.Pos())
+			// the iteration the call sits in (or the whole function)
+			var loopBody *ast.BlockStmt
+			var loop ast.Stmt
+			ir.Walk(f.Body, false, func(x ast.Node) {
+				switch l := x.(type) {
+				case *ast.RangeStmt:
+					if containsNode(l.Body, nd.AST) && (loopBody == nil || containsNode(loopBody, l)) {
+						loopBody, loop = l.Body, l
+					}
+				case *ast.ForStmt:
+					if containsNode(l.Body, nd.AST) && (loopBody == nil || containsNode(loopBody, l)) {
+						loopBody, loop = l.Body, l
+					}
+				}
+			})
+			var starts []*cfgx.Visit
+			if loop != nil {
+				for _, e := range loopBodyEntries(g, loop, loopBody) {
+					starts = append(starts, cfgx.StartAfter(e, 0))
+				}
+			}
+			if len(starts) == 0 {
+				starts = []*cfgx.Visit{cfgx.StartAt(g.Entry, 0)}
+			}
+			_, before := g.Reach(starts, isState)[nd]
+			before = !before // every way to the call passes AddState
+			after := true
+			var succ []*cfgx.Visit
+			for _, e := range nd.Succs {
+				succ = append(succ, cfgx.StartAfter(e, 0))
+			}
+			for m, v := range g.Reach(succ, isState) {
+				_ = v
+				if m.Exit {
+					if _, isRet := m.AST.(*ast.ReturnStmt); !isRet {
+						after = false
+					}
+				}
+				if rs, isRet := m.AST.(*ast.ReturnStmt); isRet && f.ClassifyReturn(m) != ir.RetError {
+					_ = rs
+					after = false
+				}
+				if loop != nil && m.AST != nil && !containsNode(loopBody, m.AST) && (containsNode(loop, m.AST) || m.AST == ast.Node(loop)) {
+					after = false // back at the loop's head
+				}
+			}
+			ob.Check(before || after, nil, "%s stores a block at %s on a path on which the state that results from it is not stored in the same step: a block kept on a side chain without its state cannot serve as the parent of the next batch of that fork (AddBlocks answers 'missing parent state', and the syncer bans the honest peer that served the batch)", f.Name(), c.P.Pos(call.Pos()))
+		}
+	}
+	if n == 0 {
+		ir.Fail("no call of Store.AddBlock found in chain.Manager")
+	}
+}
